@@ -9,7 +9,10 @@ helper functions / methods of the repository are replaced by the helper's body:
 
     x = await helper(a, b)      ->   _i1_p = a ; _i1_q = b ; <body> ; x = <returned expr>
 
-Only helpers that are safe to splice are inlined: defined in the same module,
+Only helpers that are safe to splice are inlined: defined in the same module
+(or a method called on ``self`` inherited from a class of another module of the
+repository, when every global name it reads is bound to the same definition in
+both modules),
 not recursive, no yield / global / nonlocal / varargs, and a single ``return``
 as the last statement of the body (or none).  Locals of the helper are renamed
 with a fresh prefix; ``self`` stays ``self`` for methods called on ``self``.
@@ -66,6 +69,29 @@ def _splicable(helper: FuncInfo) -> bool:
         deco = [ast.unparse(d) for d in node.decorator_list]
         if any(d not in ("staticmethod", "classmethod") for d in deco):
             return False
+    return True
+
+
+def _same_globals(ctx, helper: FuncInfo, fn: FuncInfo, missing: Dict[str, object]) -> bool:
+    """
+    A helper of another module of the repository (an inherited method, a shared function) can be spliced only when
+    every global name its body reads means the same thing in the module it lands in.
+    """
+    import builtins
+
+    local = set(_assigned_names(helper.node)) | set(helper.params)
+    for n in own_nodes(helper.node):
+        if isinstance(n, (ast.FunctionDef, ast.AsyncFunctionDef, ast.Lambda, ast.ClassDef)) and n is not helper.node:
+            return False
+        if isinstance(n, ast.Name) and isinstance(n.ctx, ast.Load) and n.id not in local:
+            here, there = ctx.r.resolve_name(helper.module, n.id), ctx.r.resolve_name(fn.module, n.id)
+            if here is None and there is None and hasattr(builtins, n.id):
+                continue
+            if here is not None and there is None and not hasattr(builtins, n.id):
+                missing[n.id] = here  # unknown where the helper lands: bound in the view's own environment
+                continue
+            if here is None or there is None or here != there:
+                return False
     return True
 
 
@@ -211,6 +237,7 @@ def inlined(ctx, fn: FuncInfo, depth: int = 3, keep: Tuple[str, ...] = ()) -> Fu
     view = FuncInfo(fn.module, fn.qualname, new_node, fn.cls, fn.parent)
     view.nested = dict(fn.nested)  # local helpers resolve while splicing; re-indexed over the rewritten tree below
     changed = [False]
+    counter_env = [0]
 
     def resolve(call: ast.Call, awaited: bool) -> Optional[FuncInfo]:
         try:
@@ -220,8 +247,26 @@ def inlined(ctx, fn: FuncInfo, depth: int = 3, keep: Tuple[str, ...] = ()) -> Fu
         if len(callees) != 1:
             return None
         helper = callees[0]
-        if helper.module is not fn.module or helper.module.external or helper.key == fn.key or helper.key in keep:
+        if helper.module.external or helper.key == fn.key or helper.key in keep:
             return None
+        if helper.module is not fn.module:
+            # only a method of the object itself inherited from a base class of another module (self._accept(..)),
+            # never a function of another module: rules anchor on those calls (util helpers of the walk)
+            on_self = isinstance(call.func, ast.Attribute) and isinstance(call.func.value, ast.Name) and call.func.value.id in ("self", "cls") and helper.cls is not None
+            missing: Dict[str, object] = {}
+            if not on_self or not _same_globals(ctx, helper, view, missing):
+                return None
+            if missing:
+                # the view moves to a copy of its module whose environment also knows the helper's imports
+                import dataclasses
+
+                counter_env[0] += 1
+                mod2 = dataclasses.replace(view.module)
+                env2 = dict(ctx.r.env(view.module))
+                env2.update(missing)
+                mod2.env_name = f"{fn.module.name}#view{id(view)}.{counter_env[0]}"  # type: ignore[attr-defined]
+                ctx.r._env[mod2.env_name] = env2  # type: ignore[attr-defined]  # pylint: disable=protected-access
+                view.module = mod2
         if helper.is_async != awaited:
             return None
         if not _splicable(helper):
@@ -334,6 +379,14 @@ def inlined(ctx, fn: FuncInfo, depth: int = 3, keep: Tuple[str, ...] = ()) -> Fu
             call, awaited = _call_of(stmt)
             # f(a, helper(b)): a helper call in argument position is lifted in front of the statement when everything
             # evaluated before it is a plain read (names, attribute chains, constants) - it is spliced in the next pass
+            # helper(a).method(b): a helper call in receiver position is evaluated first of all - lifted likewise
+            if call is not None and isinstance(call.func, ast.Attribute) and isinstance(call.func.value, ast.Call) and resolve(call.func.value, False) is not None:
+                counter[0] += 1
+                tmp = f"_h{counter[0]}"
+                out.extend(rewrite([ast.fix_missing_locations(ast.Assign([ast.Name(tmp, ast.Store())], call.func.value, lineno=stmt.lineno, col_offset=0))]))
+                call.func.value = ast.Name(tmp, ast.Load())
+                ast.fix_missing_locations(stmt)
+                changed[0] = True
             if call is not None and resolve(call, awaited) is None and _simple_read(call.func):
                 arg_slots = [("args", i, a) for i, a in enumerate(call.args)] + [("keywords", i, k.value) for i, k in enumerate(call.keywords)]
                 for pos, (kind_, i, a) in enumerate(arg_slots):
@@ -341,7 +394,7 @@ def inlined(ctx, fn: FuncInfo, depth: int = 3, keep: Tuple[str, ...] = ()) -> Fu
                     if isinstance(inner, ast.Call) and resolve(inner, False) is not None and all(_simple_read(x) for _, _, x in arg_slots[:pos]):
                         counter[0] += 1
                         tmp = f"_h{counter[0]}"
-                        out.append(ast.fix_missing_locations(ast.Assign([ast.Name(tmp, ast.Store())], inner, lineno=stmt.lineno, col_offset=0)))
+                        out.extend(rewrite([ast.fix_missing_locations(ast.Assign([ast.Name(tmp, ast.Store())], inner, lineno=stmt.lineno, col_offset=0))]))
                         if kind_ == "args":
                             call.args[i] = ast.Name(tmp, ast.Load())
                         else:
